@@ -32,7 +32,8 @@ theorem keywrap_roundtrip (L : Laws C) {d : Nat} (hd0 : 0 < d) (hdq : d < C.q)
     obtain ⟨xT, yT, hT⟩ := L.xy_some (L.nsmul_ne hQ0 hk0 hkq)
     obtain ⟨xR, yR, hR⟩ := L.xy_some (L.base_mul_ne hk0 hkq)
     refine ⟨_, keyt_wrap_some L hk hr hload hT hR, ?_, ?_⟩
-    · simp only [List.length_append, natLE_length, L.kwp_len, hh]
+    · have h32 : 32 ≤ (key ++ hdrOctets header).length := by rw [List.length_append]; omega
+      simp only [List.length_append, natLE_length, L.kwp_len _ _ h32, hh]
       omega
     · intro header' he
       exact keyt_unwrap_wrap L hd0 hdq hR hT key _ hk hh header' he
